@@ -21,7 +21,17 @@ def main(argv=None):
         mod = importlib.import_module(f'lsa.props.{pid.lower()}')
         repo = Repo()
         chk = Check(pid, a.tier)
-        mod.run(chk, repo, a.tier)
+        try:
+            mod.run(chk, repo, a.tier)
+        except AnalysisError as e:
+            # a definite violation found before the analysis broke down still stands
+            if any(not o.ok for o in chk.obligations):
+                print(f'ANALYSIS-NOTE property={pid}: analysis stopped early: {e}')
+                chk.floors = {}
+                rc = chk.finish()
+                if rc == 1:
+                    return 1
+            raise
         if a.list or a.explain:
             for o in chk.obligations:
                 if a.list or a.explain in o.key:
